@@ -18,8 +18,8 @@ every fuel, every owned/borrowed split of the arguments):
   environment gives (`c24_child_sees_parent_locals`, `c24_child_sees_outer`,
   `c24_extract_keeps_other_captures`).
 * Global simulation over whole nested runs: proved on a fragment (`c24_runPlan_eq_evalG_partial`:
-  no in-place operators, no re-capture of a graph's own captures by a nested operator; any nesting
-  of If/Loop, any iteration count, any owned/borrowed split).  Outside the fragment it is tied by
+  in-place execution included; no re-capture of a graph's own captures by a nested operator; any
+  nesting of If/Loop, any iteration count, any owned/borrowed split).  Outside the fragment it is tied by
   the correspondence harness and the `decide`d scenario programs below.  The re-capture hole is real
   at component level: `c24_getInput_misses_capture_node`.
 
@@ -270,49 +270,52 @@ example :
 
 /-! ### T1 over whole nested runs (fragment) -/
 
-/-- **T1, global refinement (partial: fragment).** For every operator semantics in which no
-operator runs in place (`hS`), every fuel and every well-formed program `g` of nesting depth
+/-- **T1, global refinement (partial: fragment).** For every operator semantics whose operators
+declare at most one in-place input (`hS`; all single-output operators of rten do — only the two
+multi-output attention-cache operators declare two), every fuel and every well-formed program `g`
+of nesting depth
 `< fuel` (`wfG`: distinct names per graph, no shadowing of an enclosing graph's names by a subgraph,
 outputs distinct and defined by the graph, and `NoRecapture`: no operator's subgraphs capture a
 name that the graph itself captures), for *every* owned/borrowed split of the arguments, the
-operational semantics — reference counts, by-value capture extraction, the `CaptureEnv` chain,
-release of dead values, `Loop` with any number of iterations (zero included), arbitrary nesting of
+operational semantics — reference counts, in-place candidate selection and the `run_in_place`
+condition, `take_value` from `temp_values` *and* out of the by-value captures inside a subgraph,
+by-value capture extraction, the `CaptureEnv` chain, release of dead values, `Loop` with any number of iterations (zero included), arbitrary nesting of
 `If` and `Loop` — returns exactly what the naive semantics returns (same values or same error
 class). The naive semantics is taken in its code reading of empty scan outputs (`onnx := false`);
 it differs from the ONNX reading only on zero-iteration loops with scan outputs
 (`c24_loop_zero_iter_scan_false`).
-Missing for the full statement: (1) in-place execution (`take_value` for `run_in_place`, including
-takes out of the by-value captures) — T2 shows such takes never remove a value that is still
-needed, but the value-level simulation is not done; (2) graphs that pass one of their own captures
-on to a nested operator (needs the `ByValOnce` counting argument, see
+The operator contract `run_in_place = run` is part of the model (`Sem.run` is used for both).
+Missing for the full statement: graphs that pass one of their own captures on to a nested operator
+(`NoRecapture` in `wfG`; needs the `ByValOnce` counting argument, see
 `c24_getInput_misses_capture_node`). -/
-theorem c24_runPlan_eq_evalG_partial (S : Sem P V) (hS : ∀ k, S.inPlaceIdx k = []) (fuel : Nat)
+theorem c24_runPlan_eq_evalG_partial (S : Sem P V) (hS : ∀ k, (S.inPlaceIdx k).length ≤ 1)
+    (fuel : Nat)
     (g : Graph P V) (args : List (Bool × V)) (hwf : wfG fuel g = true) :
     runTop S fuel g args = evalG S false fuel [] g (args.map (·.2)) :=
   runPlan_refines S hS fuel g args [] [] hwf
-    (fun _ _ => ⟨rfl, rfl⟩) (fun _ _ _ => rfl)
+    (fun _ _ => ⟨rfl, rfl⟩) trivial (fun _ _ _ => rfl)
 
 /-- The general form: a subgraph run in any capture environment `E` that agrees with the naive
 enclosing environment `σ` on the graph's free names (and does not shadow its names). -/
-theorem c24_runPlan_eq_evalG_env_partial (S : Sem P V) (hS : ∀ k, S.inPlaceIdx k = [])
+theorem c24_runPlan_eq_evalG_env_partial (S : Sem P V) (hS : ∀ k, (S.inPlaceIdx k).length ≤ 1)
     (fuel : Nat) (g : Graph P V) (args : List (Bool × V)) (E : List (Frame V)) (σ : Env V)
     (hwf : wfG fuel g = true)
-    (hshadow : ∀ n, n ∈ g.allDefs → getInput E n = none ∧ look σ n = none)
+    (hshadow : ∀ n, n ∈ g.allDefs → getInput E n = none ∧ look σ n = none) (hhead : headOK E)
     (hfree : ∀ n, n ∉ g.defs → Needed g g.ops n → getInput E n = look σ n) :
     runPlan S fuel g args E = evalG S false fuel σ g (args.map (·.2)) :=
-  runPlan_refines S hS fuel g args E σ hwf hshadow hfree
+  runPlan_refines S hS fuel g args E σ hwf hshadow hhead hfree
 
-/-- `intSem` without in-place execution. -/
-def intSemNoInPlace : Sem Prim Tens := { intSem with inPlaceIdx := fun _ => [] }
+theorem intSem_one_inplace : ∀ k, (intSem.inPlaceIdx k).length ≤ 1 := by
+  intro k; cases k <;> decide
 
 /-- Non-vacuity: scenarios s3 (loop with a by-value capture) and s1 without the branch's own use of
 `5` are well-formed, so the theorem applies to them with owned arguments (by-value captures). -/
 example : wfG 3 progS3 = true := by decide
 
 example :
-    runTop intSemNoInPlace 3 progS3 (argsS3.map (fun v => (true, v))) =
-      evalG intSemNoInPlace false 3 [] progS3 argsS3 := by
-  have := c24_runPlan_eq_evalG_partial intSemNoInPlace (fun _ => rfl) 3 progS3
+    runTop intSem 3 progS3 (argsS3.map (fun v => (true, v))) =
+      evalG intSem false 3 [] progS3 argsS3 := by
+  have := c24_runPlan_eq_evalG_partial intSem intSem_one_inplace 3 progS3
     (argsS3.map (fun v => (true, v))) (by decide)
   simpa [List.map_map, Function.comp_def] using this
 
